@@ -80,6 +80,12 @@ func (t *Teamserver) ListenerStart(ListenerType int, info any) error {
 		break
 
 	case handlers.LISTENER_EXTERNAL:
+		// an endpoint is served by one listener only: refuse the second one before anything
+		// is stored or announced (removing either of two that share a route unroutes both)
+		if t.EndpointExist(info.(handlers.ExternalConfig).Endpoint) {
+			return errors.New("endpoint already in use")
+		}
+
 		var (
 			ExtConfig = handlers.NewExternal(t.Server.Engine, info.(handlers.ExternalConfig))
 			endpoint  = new(Endpoint)
@@ -381,6 +387,10 @@ func (t *Teamserver) ListenerServiceExc2Add(Name, ExEndpoint string, client *ser
 
 	if t.ListenerExist(Name) {
 		return errors.New("listener with that name already exist")
+	}
+
+	if t.EndpointExist(ExEndpoint) {
+		return errors.New("endpoint already in use")
 	}
 
 	// create a new external C2 instance
